@@ -153,6 +153,8 @@ pub struct Cfg {
     pub dev: bool,
     pub filter: String,
     pub style: char,
+    /// run under OnchainValidatorFactory (encoded as an upper-case style letter in the cfg string)
+    pub onchain: bool,
     pub allow: Vec<String>,
     pub xpubs: Vec<u32>,
 }
@@ -169,7 +171,8 @@ impl Cfg {
             max_feerate: p[0].parse().ok()?,
             dev: p[1] == "1",
             filter: p[2].to_string(),
-            style: p[3].chars().next()?,
+            style: p[3].chars().next()?.to_ascii_lowercase(),
+            onchain: p[3].chars().next()?.is_ascii_uppercase(),
             allow: list(p[4]),
             xpubs: list(p[5]).iter().map(|s| s.parse().ok()).collect::<Option<Vec<u32>>>()?,
         })
@@ -181,7 +184,7 @@ impl Cfg {
             self.max_feerate,
             if self.dev { 1 } else { 0 },
             self.filter,
-            self.style,
+            if self.onchain { self.style.to_ascii_uppercase() } else { self.style },
             l(&self.allow),
             l(&self.xpubs.iter().map(|x| x.to_string()).collect())
         )
@@ -554,7 +557,7 @@ fn make_env(cfg: &Cfg, limit: u64, ty: &str) -> Env {
     policy.fee_velocity_control = spec;
     let clock = Arc::new(ManualClock::new(Duration::from_secs(1_600_000_000)));
     let services = NodeServices {
-        validator_factory: Arc::new(SimpleValidatorFactory::new_with_policy(policy)),
+        validator_factory: validator_factory(policy, cfg.onchain),
         starting_time_factory: make_genesis_starting_time_factory(NET),
         persister: Arc::new(lightning_signer::persist::DummyPersister {}),
         clock: clock.clone(),
@@ -616,6 +619,17 @@ impl Approve for RecApprover {
     fn approve_onchain(&self, _tx: &Transaction, _prev_outs: &[TxOut], unknown_indices: &[usize]) -> bool {
         *self.seen.lock().unwrap() = Some(unknown_indices.to_vec());
         self.approve
+    }
+}
+
+/// the node's validator factory: `SimpleValidatorFactory`, or (a share of the cases) vlsd's default
+/// `OnchainValidatorFactory` wrapping it, so that every delegating method of onchain_validator.rs is in the loop
+pub fn validator_factory(policy: lightning_signer::policy::simple_validator::SimplePolicy, onchain: bool) -> Arc<dyn lightning_signer::policy::validator::ValidatorFactory> {
+    let simple = SimpleValidatorFactory::new_with_policy(policy);
+    if onchain {
+        Arc::new(lightning_signer::policy::onchain_validator::OnchainValidatorFactory::new_with_simple_factory(simple))
+    } else {
+        Arc::new(simple)
     }
 }
 
@@ -892,7 +906,7 @@ fn gen_cfg(rng: &mut Rng) -> Cfg {
     }
     xpubs.sort();
     xpubs.dedup();
-    Cfg { max_feerate, dev: rng.chance(1, 15), filter, style, allow, xpubs }
+    Cfg { max_feerate, dev: rng.chance(1, 15), filter, style, onchain: rng.chance(1, 3), allow, xpubs }
 }
 
 fn gen_tx(rng: &mut Rng, cfg: &Cfg, now: u64) -> TxSpec {
@@ -1181,6 +1195,8 @@ impl Group for C08Onchain {
             // a 1000 sat fee exceeds 333333 sat/kw and is refused; a 3000 sat push has room and is counted)
             c("node 333333;0;w8;n;-;- 1000000000 d|tx 333333;0;w8;n;-;- 1600000000 2 0 1 1 1001000:w N 1 0:1000000:1:900000000:1 C0@-=1000000|tx 333333;0;w8;n;-;- 1600000001 2 0 1 1 1000100:w N 1 0:1000000:1:0:1 C0@-=1000000"),
             c("node 333333;0;w8;n;-;- 1000000000 d|tx 333333;0;w8;n;-;- 1600000000 2 0 1 1 1001000:w N 1 0:1000000:1:3000000:1 C0@-=1000000"),
+            // the same funding scenario under vlsd's default OnchainValidatorFactory (upper-case style letter)
+            c("node 333333;0;d;N;-;- 1000000000 d|tx 333333;0;d;N;-;- 1600000000 2 0 1 1 5000000:w N 2 1:3000000:1:0:1 W/1/w@1=1999000,C0@-=3000000|tx 333333;0;d;N;-;- 1600000001 2 0 0 1 5000000:w N 2 1:3000000:1:0:1 W/1/w@1=1999000,C0@-=3000000"),
             // unknown output next to a wallet output, through the approver (declines)
             c("node 333333;0;d;n;F/1/w;- 1000000000 d|tx 333333;0;d;n;F/1/w;- 1600000000 2 2 1 1 100000:w N 3 - W/1/w@1=50000,F/2/w@-=20000,F/1/w@-=29000"),
             // inbound / pushed / not yet counter-signed channels
